@@ -34,7 +34,7 @@ METHODS = ["leastsq", "least_squares", "nelder", "lbfgsb", "powell", "cg", "bfgs
 WEIGHTS = ["unity", "modulus", "proportional", "boukamp"]
 FAMILIES = ["R(RC)", "R(RQ)", "R(RC)(RC)", "R(RC)(RQ)", "R(C[RW])", "RL(RQ)"]
 LONG = "R(RC)(RC)(RC)(RC)(RC)"  # 11 elements: running identifiers 0 and 10 (invariants only)
-REQUIRED_CLASSES = {t: ["family:" + f for f in FAMILIES + [LONG]] + ["has-fixed", "has-constraint", "tight-limits", "recovery", "recovery-with-constraint", "list-of-methods"] for t in ("quick", "thorough")}
+REQUIRED_CLASSES = {t: ["family:" + f for f in FAMILIES + [LONG]] + ["has-fixed", "has-constraint", "constraint-contradicts-truth", "tight-limits", "recovery", "recovery-with-constraint", "list-of-methods"] for t in ("quick", "thorough")}
 F_GRID = np.logspace(5, -2, 71)
 
 
@@ -76,6 +76,8 @@ def fit_case(draw, recovery):
         s, fx, lim = {}, {}, {}
         for k, v in el.items():
             isfixed = (not recovery) and draw(st.integers(0, 5)) == 0 or (k == "n" and v == 0.5)
+            if k == "n" and v == 0.5 and not recovery and draw(st.booleans()):
+                isfixed = False  # a parameter that is fixed by default (Warburg exponent), released by the user
             fx[k] = bool(isfixed)
             if isfixed:
                 s[k] = v
@@ -90,15 +92,23 @@ def fit_case(draw, recovery):
         fixed.append(fx)
         limits.append(lim)
     constraint = None
-    if family in ("R(RC)(RC)", "R(RC)(RQ)") and draw(st.integers(0, 2)) == 0:
+    if family in ("R(RC)(RC)", "R(RC)(RQ)") and draw(st.integers(0, 1 if not recovery else 2)) == 0:
         constraint = draw(st.sampled_from(["ratio-expression", "ratio-variable"]))
+    # outside the recovery part the constraint may contradict the generating values: it has to hold all the same
+    cfac = 1.0
+    if constraint and not recovery and draw(st.booleans()):
+        cfac = draw(st.sampled_from([0.6, 0.75, 0.9, 1.1, 1.3, 1.6]))
     if recovery:
         method, weight, procs = "auto", "auto", draw(st.sampled_from([1, 4]))
     else:
         method = draw(st.one_of(st.sampled_from(METHODS), st.lists(st.sampled_from(METHODS), min_size=2, max_size=3, unique=True)))
         weight = draw(st.one_of(st.sampled_from(WEIGHTS), st.lists(st.sampled_from(WEIGHTS), min_size=2, max_size=2, unique=True)))
         procs = draw(st.sampled_from([1, 1, 2]))
-    return {"family": family, "truth": tr, "start": start, "fixed": fixed, "limits": limits, "constraint": constraint, "method": method, "weight": weight, "num_procs": procs, "recovery": recovery}
+        if cfac != 1.0 and draw(st.integers(0, 3)):
+            # several fits in the calling process that all have to see the same constraint
+            method = draw(st.lists(st.sampled_from(METHODS), min_size=2, max_size=3, unique=True))
+            procs = 1
+    return {"family": family, "truth": tr, "start": start, "fixed": fixed, "limits": limits, "constraint": constraint, "constraint_factor": cfac, "method": method, "weight": weight, "num_procs": procs, "recovery": recovery}
 
 
 def _apply(circuit, values, fixed=None, limits=None):
@@ -137,7 +147,9 @@ def body(ctx, case):
         # R of the second arc as a multiple of R of the first arc (the truth satisfies it exactly)
         rs = [e for e in els if e.get_symbol() == "R"]
         r1, r2 = rs[1], rs[2]
-        ratio = case["truth"][els.index(r2)]["R"] / case["truth"][els.index(r1)]["R"]
+        ratio = case["truth"][els.index(r2)]["R"] / case["truth"][els.index(r1)]["R"] * case.get("constraint_factor", 1.0)
+        if case.get("constraint_factor", 1.0) != 1.0:
+            labels.add("constraint-contradicts-truth")
         if r1.is_fixed("R") or r2.is_fixed("R"):
             r1.set_fixed("R", False)
             r2.set_fixed("R", False)
@@ -185,6 +197,8 @@ def body(ctx, case):
         p_els = probe.get_elements()
         p_els[i2].set_lower_limits("R", -math.inf).set_upper_limits("R", math.inf).set_values("R", 3.0 * case["truth"][i2]["R"])
         try:
+            if case.get("constraint_factor", 1.0) != 1.0:
+                raise FittingError("probe only when the truth satisfies the constraint")
             pres = fit_circuit(probe, data, method="leastsq", weight="boukamp", num_procs=1, **kwargs)
             ctx.observe("tied-start:chisqr", pres.pseudo_chisqr)
             ctx.check(pres.pseudo_chisqr <= 1e-8, "constraint-is-seen-by-the-optimiser", case,
